@@ -62,7 +62,7 @@ func c04Leaf(name string, sym bool) any {
 			return f
 		}
 		if !vh.Thorough() {
-			return -1.5
+			return []float64{-1.5, 0}[vh.Choose(name+"n", 2)]
 		}
 		return []float64{0, -1.5, 1e300}[vh.Choose(name+"n", 3)]
 	case 1:
@@ -71,12 +71,12 @@ func c04Leaf(name string, sym bool) any {
 		}
 		// strings whose JSON text needs care: quotes, backslashes, control characters, non-ASCII,
 		// HTML-sensitive characters, and text that merely LOOKS like an escape sequence
-		return []string{"a\"b\\c é\n", "<\\u003c&\\u0026>\\n", "\u2028\u0001\\", "100% %d %s %%"}[vh.Choose(name+"t", 4)]
+		return []string{"a\"b\\c é\n", "<\\u003c&\\u0026>\\n", "\u2028\u0001\\", "100% %d %s %%", ""}[vh.Choose(name+"t", 5)]
 	case 2:
 		if sym {
 			return vh.Bool(name + "b")
 		}
-		return true
+		return vh.Choose(name+"bv", 2) == 1
 	}
 	return nil
 }
